@@ -3,7 +3,7 @@
    Non-vacuity examples: Proofs/ChunkExamples.v. *)
 From HV Require Import Base.Prelude Model.Chunk Model.Elem
   Proofs.ChunkLists Proofs.ChunkSpec Proofs.ChunkCoords Proofs.ChunkTiling Proofs.Elem Proofs.ChunkExamples.
-From HV Require Import Model.ChunkIndex Proofs.ChunkIndex.
+From HV Require Import Model.ChunkIndex Proofs.ChunkIndex Proofs.ChunkEndToEnd.
 From Coq Require Import Permutation.
 
 (* every rank >= 1, every positive extents / chunk extents (larger, equal, non-dividing), every
@@ -64,59 +64,94 @@ Print Assumptions C01_widen_exact.
 (* ---- the chunk index (version 1 B-tree, node type 1) between the chunk writer and the chunk reader:
    Model/ChunkIndex.v, Proofs/ChunkIndex.v ---- *)
 
-(* every rank, every number of entries up to 65534 (index_pre; beyond: the two _refuted theorems below), every
-   offsets/addresses/sizes that fit their fields: the reader (ParseBTreeV1Node + CollectAllChunks on the bytes
-   WriteToFile produced) returns exactly the written entries, each once, in the writer's sort order, offsets divided
-   by the chunk extents, filter mask 0; never Panic / out of fuel *)
-Theorem C01_index_roundtrip_partial : forall cdims es f eof,
-  index_pre cdims es eof = true ->
+(* The theorems below are about the code since /repo 18c9d53 (switch rep = true; tools/props/c01unit.py checks the
+   source tree under test for the repaired forms and evaluates the model with the matching switch); the two _refuted
+   theorems are about the code before it (rep = false) and document what the repair bought.
+
+   every rank, every number of entries from 1 to MaxChunkBTreeEntries = 65535, every offsets/addresses/sizes that fit
+   their fields (index_wf: exactly input well-formedness - non-empty, fields in range, coordinates pairwise
+   different, chunk extents positive and of the same rank, node below 2^63): the reader (ParseBTreeV1Node +
+   CollectAllChunks on the bytes WriteToFile produced) returns exactly the written entries, each once, in the
+   writer's sort order, offsets divided by the chunk extents, filter mask 0; never Panic / out of fuel *)
+Theorem C01_index_roundtrip : forall cdims es f eof,
+  index_wf cdims es eof = true -> N.of_nat (length es) <= MAX_ENTRIES ->
   exists f',
-    write_index (length cdims) es f eof = Outcome.Ok (f', eof + Bytes.blen (serialize_leaf (length cdims) es), eof) /\
-    read_index f' eof 8 cdims = COk (map (expected_entry cdims) (sort_entries es)).
+    write_index true (length cdims) es f eof = Outcome.Ok (f', eof + Bytes.blen (serialize_leaf (length cdims) es), eof) /\
+    read_index true f' eof 8 cdims = COk (map (expected_entry cdims) (sort_entries es)).
 Proof. exact index_roundtrip. Qed.
-Print Assumptions C01_index_roundtrip_partial.
+Print Assumptions C01_index_roundtrip.
+
+(* more than 65535 entries (ANY such list): WriteToFile refuses, and the state after the call - file bytes and the
+   allocator's end of file - is the state before it: nothing allocated, nothing written *)
+Theorem C01_index_refused_unchanged : forall dim es f eof,
+  MAX_ENTRIES < N.of_nat (length es) ->
+  write_index_st true dim es f eof = (f, eof, Outcome.Err).
+Proof. exact index_refused_unchanged. Qed.
+Print Assumptions C01_index_refused_unchanged.
+
+(* the two together: on well-formed input of every length the pair is total - round trip, or refusal without effect *)
+Theorem C01_index_total : forall cdims es f eof,
+  index_wf cdims es eof = true ->
+  (N.of_nat (length es) <= MAX_ENTRIES /\
+   exists f',
+     write_index_st true (length cdims) es f eof
+       = (f', eof + Bytes.blen (serialize_leaf (length cdims) es), Outcome.Ok eof) /\
+     read_index true f' eof 8 cdims = COk (map (expected_entry cdims) (sort_entries es)))
+  \/
+  (MAX_ENTRIES < N.of_nat (length es) /\ write_index_st true (length cdims) es f eof = (f, eof, Outcome.Err)).
+Proof. exact index_total. Qed.
+Print Assumptions C01_index_total.
+
+(* a dataset with more than 65535 chunks: writeChunkedData refuses before the first chunk is allocated or written *)
+Theorem C01_chunked_write_refused_unchanged : forall dims cdims esz data f eof,
+  MAX_ENTRIES < total_chunks (num_chunks dims cdims) ->
+  write_chunked_file_st true dims cdims esz data f eof = (f, eof, Outcome.Err).
+Proof. exact chunked_write_refused_unchanged. Qed.
+Print Assumptions C01_chunked_write_refused_unchanged.
 
 (* ... and the sort is a permutation: every written entry appears exactly once, nothing else appears *)
 Theorem C01_index_sort_permutation : forall es, Permutation (sort_entries es) es.
 Proof. exact sort_entries_perm. Qed.
 Print Assumptions C01_index_sort_permutation.
 
-(* 65535 entries: WriteToFile succeeds, the reader panics (len(Keys) = uint16(65535 + 1) = 0) *)
+(* BEFORE 18c9d53 (rep = false), 65535 entries: WriteToFile succeeds, the reader panics (len(Keys) = uint16(65535 + 1) = 0) *)
 Theorem C01_index_roundtrip_refuted_65535 : forall cdims es f eof,
   all_pos cdims = true -> Forall (fun e => entry_ok (length cdims) e = true) es ->
   N.of_nat (length es) = 65535 ->
   eof + Bytes.blen (serialize_leaf (length cdims) es) <= MAXINT64 ->
   exists f' eof',
-    write_index (length cdims) es f eof = Outcome.Ok (f', eof', eof) /\
-    read_index f' eof 8 cdims = CPanic.
+    write_index false (length cdims) es f eof = Outcome.Ok (f', eof', eof) /\
+    read_index false f' eof 8 cdims = CPanic.
 Proof. exact index_65535_refuted. Qed.
 Print Assumptions C01_index_roundtrip_refuted_65535.
 
-(* 65536 entries (any multiple): WriteToFile succeeds, entries used = uint16(65536) = 0, the reader returns no
-   chunk and no error *)
+(* BEFORE 18c9d53 (rep = false), 65536 entries (any multiple): WriteToFile succeeds, entries used = uint16(65536) = 0,
+   the reader returns no chunk and no error *)
 Theorem C01_index_roundtrip_refuted_65536 : forall cdims es f eof,
   Forall (fun e => entry_ok (length cdims) e = true) es ->
   es <> [] -> wrap16 (N.of_nat (length es)) = 0 ->
   eof + 24 <= MAXINT64 ->
   exists f' eof',
-    write_index (length cdims) es f eof = Outcome.Ok (f', eof', eof) /\
-    read_index f' eof 8 cdims = COk [] /\ map (expected_entry cdims) (sort_entries es) <> [].
+    write_index false (length cdims) es f eof = Outcome.Ok (f', eof', eof) /\
+    read_index false f' eof 8 cdims = COk [] /\ map (expected_entry cdims) (sort_entries es) <> [].
 Proof. exact index_count_wraps_refuted. Qed.
 Print Assumptions C01_index_roundtrip_refuted_65536.
 
 (* the reader's coordinate lookup (the chunkIndex map of the hyperslab reader; lookup_chunk): when the reader's
    key -> coordinate map (division by the chunk extents) is injective on the written keys, every written entry is
-   found under its coordinate with its own address and size, and nothing is found under any other coordinate *)
-Theorem C01_index_lookup_partial : forall cdims es f eof,
-  index_pre cdims es eof = true ->
+   found under its coordinate with its own address and size, and nothing is found under any other coordinate.
+   The injectivity hypothesis is a well-formedness condition on the keys (offsets that are multiples of the chunk
+   extents never collide: C01_index_keys_injective below); with colliding keys the Go map keeps the later entry. *)
+Theorem C01_index_lookup : forall cdims es f eof,
+  index_wf cdims es eof = true -> N.of_nat (length es) <= MAX_ENTRIES ->
   NoDup (map (sc_of cdims) es) ->
   exists f' chunks,
-    write_index (length cdims) es f eof = Outcome.Ok (f', eof + Bytes.blen (serialize_leaf (length cdims) es), eof) /\
-    read_index f' eof 8 cdims = COk chunks /\
+    write_index true (length cdims) es f eof = Outcome.Ok (f', eof + Bytes.blen (serialize_leaf (length cdims) es), eof) /\
+    read_index true f' eof 8 cdims = COk chunks /\
     (forall e, In e es -> lookup_chunk (length cdims) chunks (sc_of cdims e) = Some (w_addr e, w_nbytes e)) /\
     (forall c, ~ In c (map (sc_of cdims) es) -> lookup_chunk (length cdims) chunks c = None).
 Proof. exact index_lookup. Qed.
-Print Assumptions C01_index_lookup_partial.
+Print Assumptions C01_index_lookup.
 
 (* ... and on the keys the dataset writer produces (chunk coordinate times chunk extent) that map is injective:
    different chunk coordinates are never confused *)
@@ -127,34 +162,34 @@ Proof. exact grid_keys_injective. Qed.
 Print Assumptions C01_index_keys_injective.
 
 (* reader side of the composition, all ranks / grids / element sizes / data: when the index of the file reads back as
-   a permutation of the written entries (C01_index_roundtrip_partial), the written keys are the offsets of the grid
+   a permutation of the written entries (C01_index_roundtrip), the written keys are the offsets of the grid
    chunks, and the file holds for every entry the padded chunk of its coordinate at the recorded address with the
    recorded size, readChunkedData returns the data (index -> chunk bytes -> placement, C01_chunk_tiling inside) *)
 Theorem C01_chunked_read_composition : forall dims cdims esz data,
   shape_ok dims cdims esz -> lenN data = vol dims esz ->
-  forall f root es,
+  forall rep f root es,
   vol dims esz <= MAX_CHUNK * 1024 -> esz <= 4294967295 ->
-  (exists S, Permutation S es /\ read_index f root 8 cdims = COk (map (expected_entry cdims) S)) ->
+  (exists S, Permutation S es /\ read_index rep f root 8 cdims = COk (map (expected_entry cdims) S)) ->
   Permutation (map w_coord es) (map (chunk_key cdims) (all_chunk_coords dims cdims)) ->
   Forall (entry_stored dims cdims esz data f) es ->
-  read_chunked_file f root 8 dims cdims esz = COk data.
+  read_chunked_file rep f root 8 dims cdims esz = COk data.
 Proof. exact read_chunked_file_correct. Qed.
 Print Assumptions C01_chunked_read_composition.
 
-(* write the index after the chunks, read everything back.  _partial: the chunk loop of writeChunkedData
-   (write_chunk_loop: allocate at the end of file, write, record address and size) is modelled but its effect is a
-   HYPOTHESIS here - every recorded entry has its chunk's bytes at its address, below the index's address
-   (entry_stored, w_addr + w_nbytes <= eof) - and so is "the recorded keys are the grid offsets"; what is proved is
-   that the index write keeps those bytes and that the reader then returns exactly the data.  Filters: none
-   (identity); entry count <= 65534 (index_pre). *)
-Theorem C01_chunked_end_to_end_partial : forall dims cdims esz data es f eof,
+(* END TO END, every rank / grid / element size / data: writeChunkedData (extract every padded chunk, allocate it at
+   the end of file, write it, record it; write the index) followed by readChunkedData (parse the index, read every
+   chunk, place it) returns exactly the data.  Hypotheses: the shape and the data length (input well-formedness), and
+   the capacity limits of the code, each exactly the bound the code enforces: at most MaxChunkBTreeEntries chunks
+   (more: C01_chunked_write_refused_unchanged), one padded chunk at most utils.MaxChunkSize = 2^30 bytes (the reader
+   refuses a larger chunk), the data set at most 2^40 bytes (the reader's total limit), and the file ends below 2^63
+   (int64 offsets).  Filters: none (filterPipeline == nil / identity). *)
+Theorem C01_chunked_end_to_end : forall dims cdims esz data f eof,
   shape_ok dims cdims esz -> lenN data = vol dims esz ->
-  vol dims esz <= MAX_CHUNK * 1024 -> esz <= 4294967295 ->
-  index_pre cdims es eof = true ->
-  Permutation (map w_coord es) (map (chunk_key cdims) (all_chunk_coords dims cdims)) ->
-  Forall (fun e => entry_stored dims cdims esz data f e /\ w_addr e + w_nbytes e <= eof) es ->
-  exists f',
-    write_index (length dims) es f eof = Outcome.Ok (f', eof + Bytes.blen (serialize_leaf (length cdims) es), eof) /\
-    read_chunked_file f' eof 8 dims cdims esz = COk data.
-Proof. exact chunked_end_to_end_partial. Qed.
-Print Assumptions C01_chunked_end_to_end_partial.
+  total_chunks (num_chunks dims cdims) <= MAX_ENTRIES ->
+  vol cdims esz <= MAX_CHUNK -> vol dims esz <= MAX_CHUNK * 1024 ->
+  eof + chunked_file_growth dims cdims esz <= MAXINT64 ->
+  exists f' eof' root,
+    write_chunked_file true dims cdims esz data f eof = Outcome.Ok (f', eof', root) /\
+    read_chunked_file true f' root 8 dims cdims esz = COk data.
+Proof. exact chunked_end_to_end. Qed.
+Print Assumptions C01_chunked_end_to_end.
